@@ -477,8 +477,30 @@ def gen_c01(ctx):
     yield mk_c01(rng, metric, cfg, shards)
 
 
+def gen_laws_wide(rng):
+  """many distinct n-grams per state (more than 10*k), one globally frequent n-gram that ranks low in
+  some intermediate merge: any truncation of the stored table at add/merge time breaks associativity here."""
+  import string
+  words = [a + b for a in 'bcdfg' for b in 'hjklm'][:rng.randrange(11, 16)]
+  rng.shuffle(words)
+  rep = rng.choice([2, 3])
+  def state(extra_x):
+    ws = [w for w in words for _ in range(rep)] + ['x'] * extra_x
+    rng.shuffle(ws)
+    cut = rng.randrange(1, len(ws))
+    return [[' '.join(ws[:cut]), ' '.join(ws[cut:])]] if rng.random() < 0.5 else [[' '.join(ws[:cut])], [' '.join(ws[cut:])]]
+  A, B = state(1), state(1)
+  C = [[' '.join(['x'] * rng.randrange(4, 8))]]
+  sts = [A, B, C]
+  rng.shuffle(sts)
+  return dict(kind='laws', metric='ngrams', cfg=dict(k=1, n=1, first=False, dup=True),
+              api=rng.choice(['object', 'aggfn']), A=sts[0], B=sts[1], C=sts[2], wide=True)
+
+
 def gen_laws(ctx):
   rng = ctx.rng
+  for _ in range(30 if ctx.quick else 1500):
+    yield gen_laws_wide(rng)
   for _ in range(150 if ctx.quick else 12000):
     metric = rng.choice(['ngrams', 'ngrams', 'patterns'])
     cfg = gen_cfg(rng, metric)
